@@ -264,9 +264,15 @@ __ymcw_get_bday(dt_ymcw_t that, dt_bizda_param_t bp)
 		return -1;
 	}
 
-	/* weekday the month started with */
-	wd01 = __get_m01_wday(that.y, that.m);
-	res = (signed int)(that.w - wd01) + DUWW_BDAYS_P_WEEK * (that.c) + 1;
+	/* weekday the month started with, a weekend is as good as the
+	 * day before the Monday */
+	if ((wd01 = __get_m01_wday(that.y, that.m)) > DT_SATURDAY) {
+		wd01 = DT_SATURDAY;
+	}
+	/* weekdays from the first of the month's on have their first
+	 * occurrence in the first (partial) week already */
+	res = (signed int)(that.w - wd01) + 1 +
+		DUWW_BDAYS_P_WEEK * (that.c - (that.w >= wd01));
 	return res;
 }
 #endif	/* YMCW_ASPECT_GETTERS_ */
